@@ -126,6 +126,12 @@ type Interp struct {
 	cursors  map[*Loc]*boltCursor
 	bitsets  map[*Loc]*bitsetObj
 	builders map[*Loc]*[]*Term
+	timers   map[*Loc]*timerObj
+	fs       *fsObj
+	fsRemoved []string
+	errNotExist Value
+	shardHandles map[*Loc]*shardHandle
+	envThreads int
 	ghost    map[string]Value
 	conc     *concState
 	mapOrderOverride int
@@ -480,6 +486,10 @@ func (in *Interp) runOnce(fn *ssa.Function) {
 	in.cursors = map[*Loc]*boltCursor{}
 	in.bitsets = map[*Loc]*bitsetObj{}
 	in.builders = map[*Loc]*[]*Term{}
+	in.timers = map[*Loc]*timerObj{}
+	in.fs, in.fsRemoved, in.errNotExist = nil, nil, nil
+	in.shardHandles = map[*Loc]*shardHandle{}
+	in.envThreads = 0
 	in.mapOrderOverride = -1
 	in.steps = 0
 	in.depth = 0
